@@ -22,6 +22,12 @@ FAILING = {
         ("add", "O\tu1\tA+"), ("add", "U\to1\tA"), ("add", "E\tg1\tA+\tB+\t6\t8$\t0\t2\t*"),
         ("rename", "A", "B"), ("rename", "e1", "A"), ("rename", "u1", "A"), ("rm", "nope"), ("settag", "A", "xx", [1, "a"]), ("setfield", "A", "slen", "x"),
         ("setfield", "e1", "sid1", "B+"), ("setfield", "A", "sid", "a b"),
+        # editing the items of a group: an unknown item, the group itself, an item that is not included, an item of a type that is not allowed,
+        # an item that does not continue the path, an item without orientation, the only item
+        ("groupedit", "u1", "add_item", "nope"), ("groupedit", "u1", "add_item", "u1"), ("groupedit", "u1", "rm_item", "nope"), ("groupedit", "u1", "rm_item", "C"),
+        ("groupedit", "u2", "rm_item", "e1"), ("groupedit", "o1", "append_item", "nope+"), ("groupedit", "o1", "append_item", "C+"), ("groupedit", "o1", "prepend_item", "C-"),
+        ("groupedit", "o1", "append_item", "C"), ("groupedit", "o1", "append_item", "u1+"), ("groupedit", "o1", "append_item", "o1+"), ("groupedit", "o1", "append_item", ""),
+        ("groupedit", "o3", "append_item", "A-"), ("groupedit", "u4", "add_item", "u4"),
     ],
 }
 
@@ -42,6 +48,11 @@ def do(g, op):
         if l is None:
             raise gfapy.NotFoundError("no such line")
         l.set(op[2], op[3])
+    elif k == "groupedit":
+        l = g.line(op[1])
+        if l is None or l.record_type not in "OU":
+            raise gfapy.NotFoundError("no such group")
+        getattr(l, op[2])(op[3])
     elif k == "setfield":
         l = g.line(op[1])
         if l is None:
